@@ -2,7 +2,7 @@
    from_signed_bytes_* accepts any sign-extended encoding; to_signed_bytes_* produces the
    shortest two's-complement encoding (the -2^(8k-1) exception included). *)
 From BigNum Require Import Base BaseLemmas SpecBytes BytesLemmas BitDigits BitDigitsProofs
-  Iter IterProofs Bytes BytesProofs.
+  SrcLit Iter IterProofs Bytes BytesProofs.
 Open Scope Z_scope.
 
 (** ** two's complement *)
@@ -41,16 +41,17 @@ Proof.
 Qed.
 
 (** ** from_signed_bytes *)
-Lemma ufrom_bytes_be_rev l : ufrom_bytes_be l = ufrom_bytes_le (rev l).
+Lemma ufrom_bytes_be_rev l : ufrom_bytes_be bytes_std l = ufrom_bytes_le bytes_std (rev l).
 Proof. unfold ufrom_bytes_be. destruct l; reflexivity. Qed.
 
 Lemma ienc_0 : ienc 0 = mkint NoSign [].
 Proof. unfold ienc. cbn [Z.abs z_sign]. rewrite enc_0. reflexivity. Qed.
 
-Theorem from_signed_bytes_le_spec bs : inb 256 bs ->
-  from_signed_bytes_le bs = Ret (ienc (spec_from_signed_bytes_le bs)).
+Theorem from_signed_bytes_le_spec p bs : bytes_ok p = true -> inb 256 bs ->
+  from_signed_bytes_le p bs = Ret (ienc (spec_from_signed_bytes_le bs)).
 Proof.
-  intros H. unfold from_signed_bytes_le, spec_from_signed_bytes_le.
+  intros Hok. pose proof Hok as Hok'. by_std p Hok. rename Hok' into Hok.
+  intros H. unfold from_signed_bytes_le, spec_from_signed_bytes_le. by_red.
   destruct (snoc_cases bs) as [->|(r & t & ->)]; [cbn; rewrite ienc_0; reflexivity|].
   rewrite last_opt_snoc. rewrite Z.gtb_ltb.
   pose proof H as H'. apply inb_app in H' as [Hr Ht]. apply inb_cons in Ht as [Ht _].
@@ -58,7 +59,7 @@ Proof.
   pose proof (le_value_bound 256 (r ++ [t]) ltac:(lia) H) as Hb.
   assert (Hv : le_value 256 (r ++ [t]) = le_value 256 r + 256 ^ Z.of_nat (length r) * t).
   { rewrite le_value_app. cbn [le_value]. ring. }
-  destruct (Z.ltb_spec 127 t).
+  destruct (Z.ltb_spec 127 t); cbn [sign_eqb].
   - unfold twos_complement_le. destruct (tc_true_spec (r ++ [t]) H) as (T1 & T2 & T3).
     rewrite ufrom_bytes_le_spec by auto. cbn [bind]. unfold spec_from_signed_bytes_le, spec_from_bytes_le.
     rewrite from_biguint_enc by (rewrite T3; apply Z.mod_pos_bound; lia).
@@ -69,15 +70,19 @@ Proof.
     rewrite from_biguint_enc by lia. do 2 f_equal. cbn [sign_z]. ring.
 Qed.
 
-Lemma from_signed_bytes_be_le bs : from_signed_bytes_be bs = from_signed_bytes_le (rev bs).
+Lemma from_signed_bytes_be_le bs :
+  from_signed_bytes_be bytes_std bs = from_signed_bytes_le bytes_std (rev bs).
 Proof.
-  unfold from_signed_bytes_be, from_signed_bytes_le. destruct bs as [|v r]; [reflexivity|].
+  unfold from_signed_bytes_be, from_signed_bytes_le. by_red. destruct bs as [|v r]; [reflexivity|].
   cbn [rev]. rewrite last_opt_snoc. rewrite !ufrom_bytes_be_rev.
   unfold twos_complement_be, twos_complement_le. cbn [rev]. rewrite rev_involutive. reflexivity.
 Qed.
-Theorem from_signed_bytes_be_spec bs : inb 256 bs ->
-  from_signed_bytes_be bs = Ret (ienc (spec_from_signed_bytes_be bs)).
-Proof. intros H. rewrite from_signed_bytes_be_le. apply from_signed_bytes_le_spec, inb_rev, H. Qed.
+Theorem from_signed_bytes_be_spec p bs : bytes_ok p = true -> inb 256 bs ->
+  from_signed_bytes_be p bs = Ret (ienc (spec_from_signed_bytes_be bs)).
+Proof.
+  intros Hok. pose proof Hok as Hok'. by_std p Hok. intros H. rewrite from_signed_bytes_be_le.
+  apply from_signed_bytes_le_spec; [exact Hok'|apply inb_rev, H].
+Qed.
 
 (** ** the number of bytes of the shortest encoding *)
 Lemma bitlen_range y j : 0 <= j -> 2 ^ j <= y < 2 ^ (j + 1) -> bitlen y = j + 1.
@@ -169,14 +174,15 @@ Proof.
       repeat split; auto; try lia.
 Qed.
 
-Theorem to_signed_bytes_le_spec x : icanon x ->
-  to_signed_bytes_le x = Ret (spec_to_signed_bytes_le (ival x)).
+Theorem to_signed_bytes_le_spec p x : bytes_ok p = true -> icanon x ->
+  to_signed_bytes_le p x = Ret (spec_to_signed_bytes_le (ival x)).
 Proof.
+  intros Hok. pose proof Hok as Hok'. by_std p Hok. rename Hok' into Hok.
   intros Hx. destruct (icanon_parts x Hx) as (Hc & Hs & Hv).
-  unfold to_signed_bytes_le. rewrite uto_bytes_le_spec by auto. cbn [bind]. rewrite Hv, Hs.
+  unfold to_signed_bytes_le. by_red. rewrite uto_bytes_le_spec by auto. cbn [bind]. rewrite Hv, Hs.
   set (z := ival x) in *. clearbody z. clear x Hx Hc Hs Hv.
   destruct (to_bytes_shape (Z.abs z) ltac:(lia)) as (r & t & E & Hr & Ht & Hm & Hpos & Hzero).
-  rewrite E, last_opt_snoc, rev_unit. cbn [tl]. rewrite all_zero_rev, Z.gtb_ltb.
+  rewrite E, last_opt_snoc, rev_unit. cbn [skipn]. rewrite all_zero_rev, Z.gtb_ltb.
   pose proof (le_value_bound 256 r ltac:(lia) Hr) as Hbr.
   set (k := Z.of_nat (length r) + 1).
   assert (Hk : 1 <= k) by lia.
@@ -267,10 +273,10 @@ Qed.
 
 (** big-endian = the reversed little-endian encoding *)
 Lemma to_signed_bytes_be_le x :
-  to_signed_bytes_be x = do l <- to_signed_bytes_le x; Ret (rev l).
+  to_signed_bytes_be bytes_std x = do l <- to_signed_bytes_le bytes_std x; Ret (rev l).
 Proof.
-  unfold to_signed_bytes_be, to_signed_bytes_le, uto_bytes_be.
-  destruct (uto_bytes_le (mag x)) as [bytes| |]; cbn [bind]; try reflexivity.
+  unfold to_signed_bytes_be, to_signed_bytes_le, uto_bytes_be. by_red.
+  destruct (uto_bytes_le bytes_std (mag x)) as [bytes| |]; cbn [bind]; try reflexivity.
   assert (Hfb : match rev bytes with b :: _ => b | [] => 0 end
                 = match last_opt bytes with Some b => b | None => 0 end).
   { destruct (snoc_cases bytes) as [->|(r & t & ->)]; [reflexivity|].
@@ -285,15 +291,18 @@ Proof.
     + unfold twos_complement_be, twos_complement_le. rewrite rev_involutive. reflexivity.
     + reflexivity.
 Qed.
-Theorem to_signed_bytes_be_spec x : icanon x ->
-  to_signed_bytes_be x = Ret (spec_to_signed_bytes_be (ival x)).
-Proof. intros Hx. rewrite to_signed_bytes_be_le, to_signed_bytes_le_spec by auto. reflexivity. Qed.
+Theorem to_signed_bytes_be_spec p x : bytes_ok p = true -> icanon x ->
+  to_signed_bytes_be p x = Ret (spec_to_signed_bytes_be (ival x)).
+Proof.
+  intros Hok. pose proof Hok as Hok'. by_std p Hok. intros Hx.
+  rewrite to_signed_bytes_be_le, to_signed_bytes_le_spec by auto. reflexivity.
+Qed.
 
 (** round trip: importing the exported encoding gives the value back *)
-Theorem from_to_signed_bytes_le x : icanon x ->
-  (do l <- to_signed_bytes_le x; from_signed_bytes_le l) = Ret x.
+Theorem from_to_signed_bytes_le p x : bytes_ok p = true -> icanon x ->
+  (do l <- to_signed_bytes_le p x; from_signed_bytes_le p l) = Ret x.
 Proof.
-  intros Hx. rewrite to_signed_bytes_le_spec by auto. cbn [bind].
+  intros Hok Hx. rewrite to_signed_bytes_le_spec by auto. cbn [bind].
   set (z := ival x). pose proof (signed_len_range z) as [Hk Hr]. cbv zeta in Hk, Hr.
   unfold spec_to_signed_bytes_le. set (k := signed_len z) in *.
   assert (Hb : 2 ^ (8 * k) = 2 * 2 ^ (8 * k - 1)).
